@@ -159,7 +159,10 @@ func (idx *index) get(hash uint32, matchKey matchKeyFunc) error {
 }
 
 func (idx *index) findInsertionBucket(newSlot slot, matchKey matchKeyFunc) (*slotWriter, bool, error) {
-	sw := &slotWriter{}
+	// free is the first empty slot found in the chain.
+	// Deleting a slot leaves an empty slot at the end of a bucket that still has overflow buckets,
+	// so the whole chain has to be scanned for the key before the empty slot can be used.
+	var free *slotWriter
 	it := idx.newBucketIterator(idx.bucketIndex(newSlot.hash))
 	for {
 		b, err := it.next()
@@ -169,14 +172,15 @@ func (idx *index) findInsertionBucket(newSlot slot, matchKey matchKeyFunc) (*slo
 		if err != nil {
 			return nil, false, err
 		}
-		sw.bucket = &b
 		var i int
 		for i = 0; i < slotsPerBucket; i++ {
 			sl := b.slots[i]
 			if sl.offset == 0 {
-				// Found an empty slot.
-				sw.slotIdx = i
-				return sw, false, nil
+				// Found an empty slot, no more slots in the bucket.
+				if free == nil {
+					free = &slotWriter{bucket: &b, slotIdx: i}
+				}
+				break
 			}
 			if newSlot.hash != sl.hash {
 				continue
@@ -188,14 +192,15 @@ func (idx *index) findInsertionBucket(newSlot slot, matchKey matchKeyFunc) (*slo
 			if match {
 				// Key already in the index.
 				// The slot writer will overwrite the existing slot.
-				sw.slotIdx = i
-				return sw, true, nil
+				return &slotWriter{bucket: &b, slotIdx: i}, true, nil
 			}
 		}
 		if b.next == 0 {
 			// No more buckets in the chain.
-			sw.slotIdx = i
-			return sw, false, nil
+			if free != nil {
+				return free, false, nil
+			}
+			return &slotWriter{bucket: &b, slotIdx: i}, false, nil
 		}
 	}
 }
